@@ -360,10 +360,18 @@ func (e *Exec) checkPosts(st *State, p token.Pos) {
 	if len(res) > 0 {
 		env.vars["res"] = res[0]
 	}
+	rp := &ReplayPoint{Results: res, Heap: map[string]Term{}}
+	for hk, hv := range st.heap {
+		rp.Heap[hk] = hv
+	}
 	for k, en := range e.contract.Ensures {
 		g := e.specBool(st, en, env)
 		e.pendingView = e.viewGoalOf(en, env, st)
+		n0 := len(e.obls)
 		e.obligeNamed(st, fmt.Sprintf("%s/post#%d@r%d", e.fn.Key, k, ret), "post", en.Tag, g, "postcondition: "+en.Src, p)
+		for _, ob := range e.obls[n0:] {
+			ob.Replay = rp
+		}
 	}
 }
 
